@@ -344,6 +344,7 @@ def consts(repo):
             "Definition go_auto_span : Z := %d.\nDefinition go_default_chunk : Z := %d.\n" % (int(m.group(1)), chunk))
 
 
+SRC_SPECS = ["telem"]     # translator/specs/telem.json -> Generated/Src_Telem.v (regenerated on every run)
 READY = True
 TECHNIQUE = "Coq proof (binary-search specs, invariants over command lists) + model/impl correspondence by vm_compute"
 DESIGN_REF = "DESIGN.md §8 C10"
